@@ -2,10 +2,13 @@ package rules
 
 import (
 	"fmt"
+	"go/token"
 	"sort"
 	"strings"
 
 	"golang.org/x/tools/go/ssa"
+
+	"gzverify/px"
 )
 
 // c08adapters (R10, round 4): the request-side adapters build the untyped parameter map from the request's own
@@ -156,4 +159,57 @@ func c08adapters(c *Ctx) {
 		c.R.Check(len(bad) == 0, rule, a.pkg+"."+a.fn, "values go from the request's collection into the parameter map unchanged (range, index, slice and append only — no call or operator rewrites a supplied value before its member's type is known)", posOf(c, f), strings.Join(bad, "; "), bad, stores)
 	}
 	c.R.Min(rule, 3, "ParseHeaders, GetFormValues, ParsePath")
+}
+
+// c08rangeFunnel (R4b, round 5): one comparator decides "inside the declared range", the one whose 36-row table
+// R4 verifies. Both range validators return, on every path, nil for an absent range, the error of a failed
+// conversion, or the verdict of validateNumberRange(value, opts.Range) — never the verdict of a second comparator
+// whose table nobody checked (seed r5-C08-2: an int64 fast path that truncates fractional range ends).
+func c08rangeFunnel(c *Ctx, pkg string) {
+	rule := "C08.R4"
+	for _, name := range []string{"validateJsonNumberRange", "validateValueRange"} {
+		f := c.fn(rule, pkg, name)
+		if f == nil {
+			continue
+		}
+		optsP := paramOfType(f, "*core/mapping.fieldOptionsWithContext")
+		ps := c.paths(rule, f, px.Config{})
+		vnr := calleeIs(pkg + ".validateNumberRange")
+		c.forall(rule, pkg+"."+name+"#funnel", "a supplied number is accepted only by validateNumberRange(value, opts.Range) — the comparator whose decision table is verified — or because no range is declared; failures are conversion errors or its verdict", f, ps, func(p *px.Path) (bool, string) {
+			if p.Exit != px.ExitReturn || len(p.Results) != 1 {
+				return true, ""
+			}
+			r := p.Results[0].Strip(false)
+			if r.Kind == px.KCall && r.Call != nil {
+				if shortName(r.Call) != pkg+".validateNumberRange" {
+					// a returned call result: only conversion errors may come from elsewhere, and they are non-nil
+					if p.Abs(r).K == px.NonNil {
+						return true, ""
+					}
+					return false, "the verdict comes from " + r.Call.Name() + ", not from validateNumberRange (a second comparator can disagree with the verified one, e.g. on fractional range ends)"
+				}
+				if optsP != nil && (len(r.Call.Args) != 2 || !px.IsFieldLoad(r.Call.Args[1], "Range", func(b *px.Sym) bool { return isParam(b, optsP) })) {
+					return false, "validateNumberRange is not given the field's own range"
+				}
+				return true, ""
+			}
+			if p.Abs(r).K == px.Nil || px.IsNilConst(r) {
+				// accepted without the comparator: only when no range is declared
+				if p.Has(vnr) {
+					return true, ""
+				}
+				for _, b := range p.All(px.KindIs(px.EvBranch)) {
+					cnd := b.Cond.Strip(false)
+					if cnd.Kind == px.KBinOp && (cnd.Op == token.EQL || cnd.Op == token.NEQ) {
+						isNilTest := (cnd.Op == token.EQL) == b.Taken
+						if isNilTest && (px.IsFieldLoad(cnd.X, "Range", nil) || (optsP != nil && isParam(cnd.X, optsP))) {
+							return true, ""
+						}
+					}
+				}
+				return false, "a number is accepted (nil) although a range may be declared and validateNumberRange was not asked"
+			}
+			return true, "" // a non-nil error (conversion failure, errNumberRange)
+		})
+	}
 }
